@@ -308,6 +308,8 @@ def main(argv):
     prop = argv[0]
     tier = argv[1] if len(argv) > 1 else os.environ.get('VERIF_TIER', 'quick')
     seed = int(os.environ.get('VERIF_SEED', '0') or 0)
+    if tier == 'thorough':
+        os.environ.setdefault('PYVC_SYMPY_LIMIT_S', '240')      # read when pyvc.exprsem is imported (by the contract modules)
     try:
         return run_property(prop, tier, seed)
     except Exception:
